@@ -97,15 +97,18 @@ type vSched struct {
 	hupN    int
 	stuck   string
 	// PCT-style priorities: when set, the highest-priority enabled choice runs; priorities change at change points
-	prio      map[string]int
-	changeAt  map[int]bool
-	maxSteps  int
-	deadlock  bool
-	timers    []*vTimerCtl
-	onSpawn   func(kind string) string
-	emit      func(e, k string, n, m int, err string)
-	onStop    func() // called when Run ends, before the parked actors are released
+	prio         map[string]int
+	changeAt     map[int]bool
+	maxSteps     int
+	deadlock     bool
+	timers       []*vTimerCtl
+	onSpawn      func(kind string) string
+	emit         func(e, k string, n, m int, err string)
+	onStop       func() // called when Run ends, before the parked actors are released
 	blockedAtEnd []vBlocked
+	wrapHook     func(pt int32, obj unsafe.Pointer, a, b int64) // optional: installed instead of s.hook (must call it)
+	projFn       func() []int32                                 // optional: projection of shared words, logged after every step
+	projLog      [][]int32
 }
 
 type vBlocked struct {
@@ -204,7 +207,7 @@ func (s *vSched) BlockUntil(cond func() bool) {
 // trace-only points never park
 func vTraceOnly(pt int32) bool {
 	switch pt {
-	case vpCacheAlloc, vpCacheFreeable, vpCacheFree, vpSendmsg, vpFdOpen, vpFdClose, vpOpReset, vpPollExit:
+	case vpCacheAlloc, vpCacheFreeable, vpCacheFree, vpSendmsg, vpFdOpen, vpFdClose, vpOpReset, vpPollExit, vpPollStart:
 		return true
 	}
 	return false
@@ -348,6 +351,9 @@ func (s *vSched) Run() {
 	vCur = s
 	s.active = true
 	verifHook = s.hook
+	if s.wrapHook != nil {
+		verifHook = s.wrapHook
+	}
 	defer func() {
 		s.active = false
 		if s.onStop != nil {
@@ -378,6 +384,9 @@ func (s *vSched) Run() {
 				s.stuck = "an actor did not reach a schedule point within 10s: " + s.runningNames()
 				return
 			}
+		}
+		if s.projFn != nil && steps > 0 {
+			s.projLog = append(s.projLog, s.projFn())
 		}
 		var cs []vChoice
 		allDone := true
